@@ -449,6 +449,7 @@ func (e MapExpect) FailErrorType() string {
 
 type MapModel struct {
 	State MapState
+	draws int
 }
 
 func (m *MapModel) pathSet(a int) []string {
@@ -754,7 +755,8 @@ func GenMapHistory(s Src, cfg MapGenConfig) MapHistory {
 		e := MapExec{}
 		e.Script = chance(s, "script", 15)
 		nOps := 1 + s.Intn("nops", cfg.MaxOps)
-		scratch := &MapModel{State: m.State}
+		scratch := &MapModel{State: m.State, draws: m.draws}
+		m.draws += nOps
 		var x MapExpect
 		for i := 0; i < nOps; i++ {
 			o := genMapOp(s, scratch)
@@ -781,7 +783,8 @@ func GenMapHistory(s Src, cfg MapGenConfig) MapHistory {
 var mapOpNames = []string{"save", "load", "borrow", "copy", "check", "move", "type", "paths", "each"}
 
 func genMapOp(s Src, m *MapModel) MapOp {
-	o := MapOp{Op: mapOpNames[pick(s, "op", 6, 3, 3, 2, 2, 2, 1, 1, 1)]}
+	m.draws++
+	o := MapOp{Op: mapOpNames[pickRot(s, "op", m.draws, 5, 4, 3, 2, 2, 3, 1, 1, 1)]}
 	var empty, full [][2]int
 	for a := 0; a < MapAccounts; a++ {
 		for p := 0; p < MapPaths; p++ {
